@@ -77,8 +77,8 @@ class SeparatorSet:
 
 @contract(YP + "original.setter", props=["C14"])
 class OriginalSet:
-    """Any value is stored as text; never raises for a str."""
-    params = {"value": "str"}
+    """Any value is stored as its text (str(value)); never raises."""
+    params = {}
     assume_fields = FIELDS
     raises = []
 
